@@ -2,6 +2,7 @@ import Mdsort.Proofs.FlagsTime
 import Mdsort.Proofs.DateFields
 import Mdsort.Proofs.AgeLiteral
 import Mdsort.Proofs.ConfErrors
+import Mdsort.Proofs.Strptime
 
 /-!
 # C15 - date conditions compare the true age of the message
@@ -13,9 +14,11 @@ zone and of daylight-saving transitions".  `strptime` (three layouts from the re
 table) and the zone-NAME lookup are parameters of the model; the numeric zone, the civil-date
 arithmetic, the comparison, the unit table and the overflow test are proved here.
 
-Audit notes.  (1) `strptime` is an ARBITRARY function in every theorem below: which texts the three layouts accept
-and which broken-down time they yield ("interpreted per RFC 5322" as far as day, month, year, time of day go) is
-not stated anywhere; `Gen.dateFormats` is regenerated from time.c but no theorem mentions it.  (2) A date condition
+Audit notes.  (1) In the theorems up to `C15_header_true_age` `strptime` is an ARBITRARY function.  The section "from
+the header TEXT on" at the end closes that for the C locale: `Model.timeparseC` (Model/Strptime.lean) interprets the
+layouts READ FROM `Gen.dateFormats`, `C15_layouts` says which alternatives of the RFC 5322 grammar (Spec/Rfc5322Date.lean) the
+three layouts read, `C15_rfc5322_end_to_end` that every date-time of the grammar inside `Covered` is parsed to the instant
+the RFC defines, `C15_rfc5322_uncovered` that a date-time with neither day of week nor seconds is an ERROR.  (2) A date condition
 that holds is still passed through `expr_regexec` with the pattern `.*` on the displayed text, and the regex library is
 an arbitrary oracle (`env.rx`): "matches IFF the age holds" is proved up to that call (`C15_fields`,
 `C15_header_true_age`); with an oracle that does not match `.*` the result is "no match".  (3) `C15_overflow`,
@@ -318,6 +321,254 @@ example :
   · rw [key, e1, e2]; decide +kernel
   · rw [key, e1, e2]; decide +kernel
   · rw [key, e1, e2]; decide +kernel
+
+/-! ## From the header TEXT on: RFC 5322 section 3.3 through the model of `strptime` (C locale)
+
+`Spec.renderDate dt l` is the text of the date-time `dt` with the choices `l` the grammar leaves open, `Spec.WellFormed dt l`
+the grammar and its semantic rules, `Spec.instant dt` the instant the RFC defines (Spec/Rfc5322Date.lean, independent of
+the model).  `Model.timeparseC` is `timeparse` of time.c with the executable model of `strptime` and the layouts of the
+regenerated table (tied to the platform's `strptime` and to `time_parse` by the `strp`, `timeparse`, `tparsec` and `rfcdate`
+stages of the check). -/
+
+/-- What the code needs beyond the grammar: a day of week or seconds (the three layouts are `dow + sec`, `dow`, `sec`), a
+year of four digits (`%Y` reads at most four), a zone hour up to 23 (`tzoff`), no white space in front of a day name (`%a`
+skips none; the message parser removes the white space that follows `Date:`), and a civil time other than 1969-12-31
+23:59:59 (`time_parse` takes the value -1 of `timegm` for an error).  Each is needed: the examples below. -/
+def Covered (dt : Spec.DateTime) (l : Spec.DateLayout) : Prop :=
+  (dt.dayOfWeek.isSome || dt.second.isSome) = true ∧ dt.year ≤ 9999 ∧ dt.zoneHour ≤ 23 ∧
+  (dt.dayOfWeek.isSome = true → l.fwsDow = []) ∧ Spec.civilSeconds dt ≠ -1
+
+instance (dt : Spec.DateTime) (l : Spec.DateLayout) : Decidable (Covered dt l) := by unfold Covered; exact inferInstance
+
+/-- **The table of layouts and what it covers.**  (1) Every directive of every layout of `formats[]` (time.c, regenerated
+into `Gen.dateFormats`) is known to the interpreter, and the three layouts are `%a, ` + C + `:%S`, `%a, ` + C, C + `:%S` with
+C = `%d %b %Y %H:%M` - a changed, added, removed or reordered layout falsifies this.  (2) For every date-time text of the
+grammar with a four-digit year (`Proofs.Strp.TextOK`: the grammar's white space, day 1..31, month 1..12, hour ≤ 23, minute ≤ 59,
+second ≤ 61, a day name without white space in front): `timeparse` succeeds IFF the text has a day of week or seconds, and
+then yields exactly the fields as the broken-down time (the day NAME is not looked at: no field depends on it) and leaves
+the zone. -/
+theorem C15_layouts :
+    (Gen.dateFormats.map fun f => parseFmt (ofString f)) =
+      [some (Proofs.Strp.dowPrefix ++ (Proofs.Strp.coreDirs ++ Proofs.Strp.secSuffix)),
+       some (Proofs.Strp.dowPrefix ++ Proofs.Strp.coreDirs),
+       some (Proofs.Strp.coreDirs ++ Proofs.Strp.secSuffix)] ∧
+    ∀ (dt : Spec.DateTime) (l : Spec.DateLayout), Proofs.Strp.TextOK dt l →
+      timeparseC (Spec.renderDate dt l) =
+        (if dt.dayOfWeek.isSome || dt.second.isSome then some (Proofs.Strp.tmOf dt, Proofs.Strp.zoneText dt l) else none) :=
+  ⟨Proofs.Strp.layouts_parse, Proofs.Strp.timeparseC_render⟩
+
+/-- **"Interpreted per RFC 5322", from the header text on.**  For every date-time the grammar of RFC 5322 3.3 generates
+(`Spec.WellFormed`: `[ day-name "," ] day month year hour ":" minute [ ":" second ] zone [CFWS]`, names in any letter case, one
+or two digits for the day, any FWS, year 1900 or later, day within the month, 00:00:00..23:59:60, zone `±hhmm` with
+`mm ≤ 59`, a written day of week being the right one) that lies inside `Covered`, and for EVERY zone-name oracle:
+`time_parse` over the model of `strptime` yields exactly the instant the RFC defines - the civil time read as UTC by day
+counting, minus the zone offset.  No local time zone and no daylight-saving rule enters. -/
+theorem C15_rfc5322_end_to_end (dt : Spec.DateTime) (l : Spec.DateLayout) (zn : Bytes → Option Int)
+    (hwf : Spec.WellFormed dt l) (hcov : Covered dt l) :
+    timeParse timeparseC zn (Spec.renderDate dt l) = some (Spec.instant dt) := by
+  obtain ⟨c1, c2, c3, c4, c5⟩ := hcov
+  have hy : 1 ≤ dt.year := Nat.le_trans (by decide) hwf.2.1
+  exact Proofs.Strp.timeParse_render dt l zn (Proofs.Strp.textOK_of_wellFormed dt l hwf c2 c4) c1 hy c3 hwf.2.2.2.2.2.2.2.2.2.1 c5
+
+/-- Non-vacuity of `C15_rfc5322_end_to_end`, every hypothesis instantiated on concrete texts, the result evaluated:
+`Thu, 15 Jan 2026 12:00:00 +0130`; `mON,5 jAN  2026\t12:00 -0330 (Newfoundland (winter))` (no seconds, one-digit day, odd case
+and white space, a nested comment); `29 Feb 2024 23:59:60 +0000` (no day of week, leap second). -/
+example :
+    let dt : Spec.DateTime := { dayOfWeek := some 3, day := 15, month := 1, year := 2026, hour := 12, minute := 0, second := some 0,
+                                zonePlus := true, zoneHour := 1, zoneMinute := 30 }
+    Spec.renderDate dt {} = ofString "Thu, 15 Jan 2026 12:00:00 +0130" ∧ Spec.WellFormed dt {} ∧ Covered dt {} ∧
+    Spec.instant dt = 1768478400 - 5400 ∧
+    timeParse timeparseC (fun _ => none) (ofString "Thu, 15 Jan 2026 12:00:00 +0130") = some (1768478400 - 5400) := by
+  intro dt
+  have h1 : Spec.renderDate dt {} = ofString "Thu, 15 Jan 2026 12:00:00 +0130" := by decide +kernel
+  have h2 : Spec.WellFormed dt {} := by decide +kernel
+  have h3 : Covered dt {} := by decide +kernel
+  have h4 : Spec.instant dt = 1768478400 - 5400 := by decide +kernel
+  refine ⟨h1, h2, h3, h4, ?_⟩
+  rw [← h1, C15_rfc5322_end_to_end dt {} _ h2 h3, h4]
+
+example :
+    let dt : Spec.DateTime := { dayOfWeek := some 0, day := 5, month := 1, year := 2026, hour := 12, minute := 0, second := none,
+                                zonePlus := false, zoneHour := 3, zoneMinute := 30 }
+    let l : Spec.DateLayout := { dowCase := [true, true, true], fwsDay := [], dayOneDigit := true, monCase := [true, true, true],
+                                 fwsYear := [32, 32], fwsTime := [9], trailer := ofString " (Newfoundland (winter))" }
+    Spec.renderDate dt l = ofString "mON,5 jAN  2026\t12:00 -0330 (Newfoundland (winter))" ∧ Spec.WellFormed dt l ∧ Covered dt l ∧
+    timeParse timeparseC (fun _ => none) (Spec.renderDate dt l) = some (Spec.instant dt) ∧ Spec.instant dt = 1767614400 + 12600 := by
+  decide +kernel
+
+example :
+    let dt : Spec.DateTime := { dayOfWeek := none, day := 29, month := 2, year := 2024, hour := 23, minute := 59, second := some 60,
+                                zonePlus := true, zoneHour := 0, zoneMinute := 0 }
+    let l : Spec.DateLayout := { fwsDay := [] }
+    Spec.renderDate dt l = ofString "29 Feb 2024 23:59:60 +0000" ∧ Spec.WellFormed dt l ∧ Covered dt l ∧
+    timeParse timeparseC (fun _ => none) (Spec.renderDate dt l) = some (Spec.instant dt) ∧ Spec.instant dt = 1709251200 := by
+  decide +kernel
+
+/-- **The alternative of the grammar no layout covers.**  EVERY well-formed date-time with a four-digit year that has
+neither a day of week nor seconds - `day month year hour ":" minute zone`, valid by RFC 5322 3.3 - is an ERROR of `time_parse`
+(`expr_eval_date` then fails for the message: mdsort prints `strptime: ...: Invalid argument`, leaves the message where it
+is and exits 1), for every zone-name oracle.  `formats[]` has `%d %b %Y %H:%M:%S` but not `%d %b %Y %H:%M`. -/
+theorem C15_rfc5322_uncovered (dt : Spec.DateTime) (l : Spec.DateLayout) (zn : Bytes → Option Int)
+    (hwf : Spec.WellFormed dt l) (hy : dt.year ≤ 9999) (hd : dt.dayOfWeek = none) (hs : dt.second = none) :
+    timeParse timeparseC zn (Spec.renderDate dt l) = none :=
+  Proofs.Strp.timeParse_render_uncovered dt l zn
+    (Proofs.Strp.textOK_of_wellFormed dt l hwf hy (by rw [hd]; intro h; exact absurd h (by decide))) hd hs
+
+/-- The statement WITHOUT `Covered`: every date-time the grammar of RFC 5322 3.3 generates is parsed to its instant.  The code does
+not satisfy it (`C15_rfc5322_not_all`); `C15_rfc5322_end_to_end` is this statement restricted to `Covered`. -/
+def Rfc5322AllDateTimes : Prop :=
+  ∀ (dt : Spec.DateTime) (l : Spec.DateLayout) (zn : Bytes → Option Int), Spec.WellFormed dt l →
+    timeParse timeparseC zn (Spec.renderDate dt l) = some (Spec.instant dt)
+
+/-- `15 Jan 2026 12:00 +0000` refutes it. -/
+theorem C15_rfc5322_not_all : ¬ Rfc5322AllDateTimes := by
+  intro h
+  have hwf : Spec.WellFormed ⟨none, 15, 1, 2026, 12, 0, none, true, 0, 0⟩ { fwsDay := [] } := by decide +kernel
+  have h1 := h _ _ (fun _ => none) hwf
+  rw [C15_rfc5322_uncovered _ _ _ hwf (by decide) rfl rfl] at h1
+  exact absurd h1 (by simp)
+
+/-- Non-vacuity of `C15_rfc5322_uncovered`, and the witnesses that each clause of `Covered` is needed (all well-formed by the RFC):
+* `15 Jan 2026 12:00 +0000`: neither day of week nor seconds - error;
+* `Thu, 15 Jan 10000 12:00:00 +0000`: a five-digit year - error;
+* `Thu, 15 Jan 2026 12:00:00 +2400`: zone hour above 23 - `tzoff` fails and the text `+2400` goes to the zone-NAME oracle
+  (`setenv TZ=+2400; tzset; localtime`): an error if that fails, offset 0 on glibc (not the 86400 s the text says);
+* ` Thu, 15 Jan 2026 12:00:00 +0000`: white space in front of the day name - error (the message parser never delivers this);
+* `Wed, 31 Dec 1969 23:59:59 +0100`: civil time -1 - error. -/
+example :
+    let dt : Spec.DateTime := { dayOfWeek := none, day := 15, month := 1, year := 2026, hour := 12, minute := 0, second := none,
+                                zonePlus := true, zoneHour := 0, zoneMinute := 0 }
+    let l : Spec.DateLayout := { fwsDay := [] }
+    Spec.renderDate dt l = ofString "15 Jan 2026 12:00 +0000" ∧ Spec.WellFormed dt l ∧ ¬ Covered dt l ∧
+    timeParse timeparseC (fun _ => some 0) (Spec.renderDate dt l) = none := by
+  decide +kernel
+
+example :
+    let dt : Spec.DateTime := { dayOfWeek := some 5, day := 15, month := 1, year := 10000, hour := 12, minute := 0, second := some 0,
+                                zonePlus := true, zoneHour := 0, zoneMinute := 0 }
+    Spec.renderDate dt {} = ofString "Sat, 15 Jan 10000 12:00:00 +0000" ∧ Spec.WellFormed dt {} ∧ ¬ Covered dt {} ∧
+    timeParse timeparseC (fun _ => some 0) (Spec.renderDate dt {}) = none := by
+  decide +kernel
+
+example :
+    let dt : Spec.DateTime := { dayOfWeek := some 3, day := 15, month := 1, year := 2026, hour := 12, minute := 0, second := some 0,
+                                zonePlus := true, zoneHour := 24, zoneMinute := 0 }
+    Spec.renderDate dt {} = ofString "Thu, 15 Jan 2026 12:00:00 +2400" ∧ Spec.WellFormed dt {} ∧ ¬ Covered dt {} ∧
+    timeParse timeparseC (fun _ => none) (Spec.renderDate dt {}) = none ∧
+    timeParse timeparseC (fun _ => some 0) (Spec.renderDate dt {}) = some (Spec.instant dt + 86400) := by
+  decide +kernel
+
+example :
+    let dt : Spec.DateTime := { dayOfWeek := some 3, day := 15, month := 1, year := 2026, hour := 12, minute := 0, second := some 0,
+                                zonePlus := true, zoneHour := 0, zoneMinute := 0 }
+    let l : Spec.DateLayout := { fwsDow := [32] }
+    Spec.renderDate dt l = ofString " Thu, 15 Jan 2026 12:00:00 +0000" ∧ Spec.WellFormed dt l ∧ ¬ Covered dt l ∧
+    timeParse timeparseC (fun _ => some 0) (Spec.renderDate dt l) = none := by
+  decide +kernel
+
+example :
+    let dt : Spec.DateTime := { dayOfWeek := some 2, day := 31, month := 12, year := 1969, hour := 23, minute := 59, second := some 59,
+                                zonePlus := true, zoneHour := 1, zoneMinute := 0 }
+    Spec.renderDate dt {} = ofString "Wed, 31 Dec 1969 23:59:59 +0100" ∧ Spec.WellFormed dt {} ∧ ¬ Covered dt {} ∧
+    timeParse timeparseC (fun _ => some 0) (Spec.renderDate dt {}) = none := by
+  decide +kernel
+
+/-- **Beyond the grammar: what the code does not look at.**  The same equation for every text of the shape of the grammar
+whose fields pass the range checks of `strptime` (`Proofs.Strp.TextOK`), whether or not the RFC's semantic rules hold: the day
+NAME may be any of the seven (`Mon, 15 Jan 2026` on a Thursday), the day may be 29..31 in any month (`31 Feb` is the 3rd of
+March, as `timegm` normalises it), the second may be 61, the year 1..1899, and ANYTHING may follow the zone (`l.trailer` is
+arbitrary here: `tzoff` reads five characters). -/
+theorem C15_date_text_lenient (dt : Spec.DateTime) (l : Spec.DateLayout) (zn : Bytes → Option Int)
+    (hok : Proofs.Strp.TextOK dt l) (hcov : (dt.dayOfWeek.isSome || dt.second.isSome) = true) (hy : 1 ≤ dt.year)
+    (h1 : dt.zoneHour ≤ 23) (h2 : dt.zoneMinute ≤ 59) (hne : Spec.civilSeconds dt ≠ -1) :
+    timeParse timeparseC zn (Spec.renderDate dt l) = some (Spec.instant dt) :=
+  Proofs.Strp.timeParse_render dt l zn hok hcov hy h1 h2 hne
+
+/-- Non-vacuity of `C15_date_text_lenient` outside `Spec.WellFormed`: `Mon, 31 Feb 2026 12:00:61 +0000garbage` (wrong day name,
+no such day, second 61, text glued to the zone) is read as 2026-03-03 12:01:01 UTC. -/
+example :
+    let dt : Spec.DateTime := { dayOfWeek := some 0, day := 31, month := 2, year := 2026, hour := 12, minute := 0, second := some 61,
+                                zonePlus := true, zoneHour := 0, zoneMinute := 0 }
+    let l : Spec.DateLayout := { trailer := ofString "garbage" }
+    Spec.renderDate dt l = ofString "Mon, 31 Feb 2026 12:00:61 +0000garbage" ∧ ¬ Spec.WellFormed dt l ∧
+    timeParse timeparseC (fun _ => none) (Spec.renderDate dt l) = some (Spec.instant dt) ∧
+    Spec.instant dt = Spec.epoch 2026 3 3 12 1 1 := by
+  intro dt l
+  have h1 : Spec.renderDate dt l = ofString "Mon, 31 Feb 2026 12:00:61 +0000garbage" := by decide +kernel
+  have h2 : ¬ Spec.WellFormed dt l := by decide +kernel
+  have h4 : Spec.instant dt = Spec.epoch 2026 3 3 12 1 1 := by decide +kernel
+  have hok : Proofs.Strp.TextOK dt l :=
+    { wDay := rfl, wMonth := rfl, wYear := rfl, wTime := rfl, day1 := by decide, day31 := by decide, mon1 := by decide,
+      mon12 := by decide, year := by decide, hour := by decide, minute := by decide, wZone := rfl,
+      sec := by intro s hs; cases hs; decide, dow := by intro i hi; cases hi; exact ⟨by decide, rfl⟩ }
+  exact ⟨h1, h2, C15_date_text_lenient dt l _ hok rfl (by decide) (by decide) (by decide) (by decide +kernel), h4⟩
+
+/-- **The property in one statement, from the header text on** (`C15_fields` + `C15_rfc5322_end_to_end`): in an environment
+whose `strptime` is the C-locale model over the layouts of time.c, if the message's `Date` header is the text of a
+well-formed RFC 5322 date-time inside `Covered`, the condition `date <cmp> age` evaluates to the result of
+`expr_regexec(".*")` on the header when `now - instant(dt)` is greater (resp. less) than `age`, strictly, and to "no match"
+otherwise - whatever the zone-name oracle, the local zone and everything else of the environment. -/
+theorem C15_rfc5322_header_true_age (env : Env) (root : Msg) (lno : Nat) (cmp : DateCmp) (age : Nat) (part : Nat) (m : Msg) (st : St)
+    (dt : Spec.DateTime) (l : Spec.DateLayout)
+    (hstrp : env.strptime = timeparseC) (hwf : Spec.WellFormed dt l) (hcov : Covered dt l)
+    (hdate : getHeader1 m (ofString "Date") = some (Spec.renderDate dt l)) :
+    eval env root (.date lno .header cmp age) part m st =
+      (if Proofs.AgeHolds cmp age env.now (Spec.instant dt) then
+        exprRegexec env .date lno part { src := [46, 42] } (ofString "Date") (Spec.renderDate dt l) st
+      else (.nomatch, st)) := by
+  rw [C15_fields]
+  simp only [Proofs.dateInstant, hdate, hstrp, C15_rfc5322_end_to_end dt l env.zoneName hwf hcov]
+
+/-- ... and the uncovered alternative at the level of the evaluator: an error for the message. -/
+theorem C15_rfc5322_header_uncovered (env : Env) (root : Msg) (lno : Nat) (cmp : DateCmp) (age : Nat) (part : Nat) (m : Msg) (st : St)
+    (dt : Spec.DateTime) (l : Spec.DateLayout)
+    (hstrp : env.strptime = timeparseC) (hwf : Spec.WellFormed dt l) (hy : dt.year ≤ 9999)
+    (hd : dt.dayOfWeek = none) (hs : dt.second = none)
+    (hdate : getHeader1 m (ofString "Date") = some (Spec.renderDate dt l)) :
+    eval env root (.date lno .header cmp age) part m st = (.error, st) := by
+  rw [C15_fields]
+  simp only [Proofs.dateInstant, hdate, hstrp, C15_rfc5322_uncovered dt l env.zoneName hwf hy hd hs]
+
+/-- An environment whose clock stands at 2026-01-15 12:00:00 UTC, whose `strptime` is the model and which knows no zone name. -/
+def exRfcDateEnv : Env := { Proofs.exDateEnv with now := 1768478400, strptime := timeparseC }
+
+/-- Non-vacuity of `C15_rfc5322_header_true_age` / `_uncovered` on parsed messages, every hypothesis instantiated: the message
+`Date: thu, 15 jan 2026 12:00 +0130 (CET)` (= 10:30 UTC) seen at 12:00 UTC is 5400 s old: `> 5399` matches, `> 5400` does not,
+`< 5401` matches; `Date: 15 Jan 2026 12:00 +0130` is an error. -/
+example :
+    let m := parseMessage (ofString "Date: thu, 15 jan 2026 12:00 +0130 (CET)\n\nb\n")
+    let st : St := { ml := [], flags := MFlags.empty }
+    let dt : Spec.DateTime := { dayOfWeek := some 3, day := 15, month := 1, year := 2026, hour := 12, minute := 0, second := none,
+                                zonePlus := true, zoneHour := 1, zoneMinute := 30 }
+    let l : Spec.DateLayout := { dowCase := [true], monCase := [true], trailer := ofString " (CET)" }
+    getHeader1 m (ofString "Date") = some (Spec.renderDate dt l) ∧ Spec.WellFormed dt l ∧ Covered dt l ∧
+    (eval exRfcDateEnv m (.date 1 .header .gt 5399) 0 m st).1 = .match ∧
+    (eval exRfcDateEnv m (.date 1 .header .gt 5400) 0 m st).1 = .nomatch ∧
+    (eval exRfcDateEnv m (.date 1 .header .lt 5401) 0 m st).1 = .match := by
+  intro m st dt l
+  have hd : getHeader1 m (ofString "Date") = some (Spec.renderDate dt l) := by decide +kernel
+  have hwf : Spec.WellFormed dt l := by decide +kernel
+  have hcov : Covered dt l := by decide +kernel
+  have key := fun cmp age => C15_rfc5322_header_true_age exRfcDateEnv m 1 cmp age 0 m st dt l rfl hwf hcov hd
+  have e1 : Spec.instant dt = 1768478400 - 5400 := by decide +kernel
+  refine ⟨hd, hwf, hcov, ?_, ?_, ?_⟩
+  · rw [key, e1]; decide +kernel
+  · rw [key, e1]; decide +kernel
+  · rw [key, e1]; decide +kernel
+
+example :
+    let m := parseMessage (ofString "Date: 15 Jan 2026 12:00 +0130\n\nb\n")
+    let st : St := { ml := [], flags := MFlags.empty }
+    let dt : Spec.DateTime := { dayOfWeek := none, day := 15, month := 1, year := 2026, hour := 12, minute := 0, second := none,
+                                zonePlus := true, zoneHour := 1, zoneMinute := 30 }
+    let l : Spec.DateLayout := { fwsDay := [] }
+    getHeader1 m (ofString "Date") = some (Spec.renderDate dt l) ∧ Spec.WellFormed dt l ∧
+    (eval exRfcDateEnv m (.date 1 .header .gt 1) 0 m st).1 = .error := by
+  intro m st dt l
+  have hd : getHeader1 m (ofString "Date") = some (Spec.renderDate dt l) := by decide +kernel
+  have hwf : Spec.WellFormed dt l := by decide +kernel
+  refine ⟨hd, hwf, ?_⟩
+  rw [C15_rfc5322_header_uncovered exRfcDateEnv m 1 .gt 1 0 m st dt l rfl hwf (by decide) rfl rfl hd]
 
 /-! Non-vacuity: a file with `st_atim = 300`, `st_mtim = 100`, `st_ctim = 200` at `now = 1000`
 (`Proofs.exDateEnv`): the three fields give three different answers to `> 850 seconds`, `>` and `<`
